@@ -5,9 +5,11 @@ rightmost not-above / leftmost above / leftmost not-below, None when there is no
 Exhaustive core: all sorted lists of length 0-7 over a 5-value domain x 11 probes x 5 helpers.
 Generated part: Hypothesis lists of floats (+-inf, +-0.0, duplicates, up to 200 long; thorough: also
 ints beyond 2**53 and strings) with probes taken from the list, one ulp beside it, or anywhere.
+Thorough tier: crosshair (contract-directed input search with z3) runs the contracts of tfverif/contracts_c18.py as a second generator.
 """
 import itertools
 import math
+import os
 
 from hypothesis import strategies as st
 
@@ -70,12 +72,54 @@ def nontrivial(lst, x):
 def shards(tier):
     n = 15
     per = 400 if tier == "quick" else 6000
-    return [{"kind": "exhaustive"}] + [{"kind": "hyp", "n": per, "wide": tier == "thorough" and i % 3 == 0} for i in range(n)]
+    s = [{"kind": "exhaustive"}] + [{"kind": "hyp", "n": per, "wide": tier == "thorough" and i % 3 == 0} for i in range(n)]
+    if tier == "thorough":
+        s.append({"kind": "crosshair"})  # contract-directed input search with z3 as a second generator (integer lists)
+    return s
+
+
+def run_crosshair(ctx):
+    """crosshair (tooling venv, python3-vt) searches for inputs violating the contracts in tfverif/contracts_c18.py."""
+    import ast
+    import re
+    import shutil
+    import subprocess
+
+    py = shutil.which("python3-vt") or "/opt/veriftools/pyvenv/bin/python"
+    if not os.path.exists(py):
+        return None, None
+    probe = subprocess.run([py, "-c", "import crosshair"], capture_output=True)
+    if probe.returncode != 0:
+        return None, None
+    src = os.path.join(core.VERIF, "tfverif", "contracts_c18.py")
+    r = subprocess.run([py, "-m", "crosshair", "check", "--analysis_kind=asserts", "--per_condition_timeout=15", src], capture_output=True, text=True, timeout=900,
+                       env=dict(os.environ, PYTHONPATH=core.repo_root()))
+    out = (r.stdout or "") + (r.stderr or "")
+    m = re.search(r"when calling check_(find_\w+)\((.*)\)\s*$", out, re.M)
+    if m:
+        try:
+            lst, x = ast.literal_eval("(" + m.group(2) + ")")
+            return 5, {"helper": m.group(1), "list": list(lst), "x": x}
+        except Exception:
+            raise core.HarnessError("crosshair reported a counterexample that could not be parsed: %s" % out[-300:])
+    if r.returncode not in (0,):
+        raise core.HarnessError("crosshair exited %d: %s" % (r.returncode, out[-300:]))
+    return 5, None
 
 
 def run_shard(spec, ctx):
     fns = helpers()
     acc = ctx.acc
+    if spec["kind"] == "crosshair":
+        n, cex = run_crosshair(ctx)
+        if n is None:
+            acc.cls("crosshair_unavailable")
+            return
+        acc.cls("crosshair_contracts_checked", n)
+        if cex is not None:
+            check_one(fns, cex["helper"], cex["list"], cex["x"])  # re-confirm with the check's own oracle -> Violation
+            raise core.HarnessError("crosshair counterexample %r did not reproduce" % (cex,))
+        return
     if spec["kind"] == "exhaustive":
         dom = (1, 3, 5, 7, 9)
         n_lists = 0
